@@ -38,7 +38,20 @@ type event struct {
 	kind, arg int
 	pool      int
 	top       int // id of Pool[PoolSize-1] or -1
-	cur       *fast.Env
+	cur       frameObs // Run.CurrEnv at the probe
+	curOuter  frameObs // its Outer
+}
+
+// what a probe sees of one frame (captured at probe time: a freed frame loses its Outer)
+type frameObs struct {
+	id, outer, nv, ni int
+}
+
+func (r *runner) obs(e *fast.Env) frameObs {
+	if e == nil {
+		return frameObs{id: -1, outer: -1}
+	}
+	return frameObs{r.register(e), r.register(e.Outer), len(e.Vals), len(e.Ints)}
 }
 
 type runner struct {
@@ -115,7 +128,11 @@ func (r *runner) ev(kind, arg int) {
 	if run.PoolSize > 0 {
 		top = r.register(run.Pool[run.PoolSize-1])
 	}
-	r.events = append(r.events, event{kind, arg, run.PoolSize, top, cur})
+	evt := event{kind: kind, arg: arg, pool: run.PoolSize, top: top, cur: r.obs(cur), curOuter: frameObs{id: -1, outer: -1}}
+	if cur != nil {
+		evt.curOuter = r.obs(cur.Outer)
+	}
+	r.events = append(r.events, evt)
 	// heap predicates of the property, evaluated on the implementation's own heap
 	if r.heapErr == "" {
 		inPool := map[*fast.Env]bool{}
@@ -228,25 +245,22 @@ func (r *runner) items(p *program) (items []string, nOps map[string]int, err str
 	add := func(s string) { items = append(items, s) }
 	op := func(name, s string) { nOps[name]++; add("IOp (" + s + ")") }
 	pool := func(e event) { add(fmt.Sprintf("IPool %d %s", e.pool, optN(e.top))) }
-	frame := func(e *fast.Env) {
-		add(fmt.Sprintf("IFrame %d %s %d %d", r.ids[e], optN(r.register(e.Outer)), len(e.Vals), len(e.Ints)))
+	frame := func(o frameObs) {
+		add(fmt.Sprintf("IFrame %d %s %d %d", o.id, optN(o.outer), o.nv, o.ni))
 	}
 	for i, e := range r.events {
 		switch e.kind {
 		case evCall:
 			fi := p.Funs[e.arg]
 			ff := e.cur
-			if ff == nil {
-				return nil, nil, fmt.Sprintf("event %d: CurrEnv nil at function entry", i)
-			}
 			if fi.BodyScope != 0 {
-				ff = e.cur.Outer
+				ff = e.curOuter
 			}
-			if ff == nil || ff.Outer == nil {
+			if ff.id < 0 || ff.outer < 0 {
 				return nil, nil, fmt.Sprintf("event %d: function frame without Outer", i)
 			}
 			nOps["OCall"]++
-			add(fmt.Sprintf("ICallEnv %d %d %d", r.ids[ff.Outer], len(ff.Vals), len(ff.Ints)))
+			add(fmt.Sprintf("ICallEnv %d %d %d", ff.outer, ff.nv, ff.ni))
 			if fi.BodyScope != 0 {
 				si := p.Scopes[fi.BodyScope]
 				op("OBlock", fmt.Sprintf("OBlock %d %d", si.Nv, si.Ni))
@@ -259,7 +273,7 @@ func (r *runner) items(p *program) (items []string, nOps map[string]int, err str
 		case evBlock:
 			si := p.Scopes[e.arg]
 			op("OBlock", fmt.Sprintf("OBlock %d %d", si.Nv, si.Ni))
-			if e.cur == nil {
+			if e.cur.id < 0 {
 				return nil, nil, fmt.Sprintf("event %d: CurrEnv nil at block entry", i)
 			}
 			frame(e.cur)
@@ -481,6 +495,27 @@ func main() {
 			}
 		}
 	}
+	if a.Replay != "" {
+		// replay exactly one recorded program (a replay file written by ./check, or a bare caseInput)
+		var rf struct {
+			Failure struct {
+				Input caseInput `json:"input"`
+			} `json:"failure"`
+			caseInput
+		}
+		b, err := os.ReadFile(a.Replay)
+		if err != nil || json.Unmarshal(b, &rf) != nil {
+			fmt.Println("cannot read replay file", a.Replay, err)
+			os.Exit(2)
+		}
+		ci := rf.Failure.Input
+		if len(ci.Decls) == 0 {
+			ci = rf.caseInput
+		}
+		progs = []*program{{Decls: ci.Decls, Run: ci.Run, Feat: map[string]int{"replay": 1}}}
+		inputs = []caseInput{ci}
+		n = 0
+	}
 	nCorpus := len(progs)
 	for i := 0; i < n; i++ {
 		sub := rng.Fork()
@@ -538,6 +573,11 @@ func main() {
 			continue
 		}
 		w := want[idx]
+		if a.Replay != "" {
+			fmt.Println("gomacro      :", strings.Join(t1, " "))
+			fmt.Println("gomacro+poison:", strings.Join(t2, " "))
+			fmt.Println("compiled Go  :", strings.Join(w, " "))
+		}
 		if d := diffAt(normTrace(t1), w); d != "" {
 			fail("gomacro output differs from compiled Go", d+" | tail: "+strings.Join(tail(t1, 3), ","), strings.Join(tail(w, 3), ","))
 		}
